@@ -4,7 +4,11 @@ import (
 	"bytes"
 	"fmt"
 	"github.com/nspcc-dev/dbft"
+	"github.com/nspcc-dev/neo-go/pkg/core/interop/interopnames"
 	"github.com/nspcc-dev/neo-go/pkg/crypto/keys"
+	"github.com/nspcc-dev/neo-go/pkg/smartcontract/callflag"
+	"github.com/nspcc-dev/neo-go/pkg/vm/emit"
+	"github.com/nspcc-dev/neo-go/pkg/vm/opcode"
 	"math/big"
 	"sort"
 	"strings"
@@ -80,6 +84,10 @@ func (s *netSim) clientSend(to int, raw []byte) {
 func (s *netSim) clientTx(t NetTx) {
 	r := s.r
 	bc := r.P.BC
+	if t.Stateful {
+		s.statefulWitnessTx(t)
+		return
+	}
 	if t.Defect == defNone {
 		var tx *transaction.Transaction
 		var desc string
@@ -947,4 +955,48 @@ func (s *netSim) rulesTx(t NetTx) {
 		}
 		s.clientSend(n, m)
 	}
+}
+
+// statefulWitnessTx: a GAS transfer of account A co-signed (scope None) by the account of an inline verification script
+// "CheckSig(key) && Ledger.currentIndex() < K" with K two blocks ahead. Nothing is wrong with it now; from height K on
+// its second witness fails, and a pool that still holds it then would propose a block nobody else accepts.
+func (s *netSim) statefulWitnessTx(t NetTx) {
+	r := s.r
+	bc := r.P.BC
+	a := r.prod.kr.acct(t.Op.A)
+	co := r.prod.kr.accts[(t.Op.A+1)%numAccounts]
+	k := int64(bc.BlockHeight()) + 2
+	w := nio.NewBufBinWriter()
+	emit.Bytes(w.BinWriter, co.PublicKey().Bytes())
+	emit.Syscall(w.BinWriter, interopnames.SystemCryptoCheckSig)
+	emit.AppCall(w.BinWriter, nativehashes.LedgerContract, "currentIndex", callflag.ReadStates)
+	emit.Int(w.BinWriter, k)
+	emit.Opcodes(w.BinWriter, opcode.LT, opcode.BOOLAND)
+	vscript := w.Bytes()
+	tx := s.simpleTransfer(a, r.prod.kr.acctHash(t.Op.B), 1+t.Op.N)
+	tx.ValidUntilBlock = bc.BlockHeight() + min(6, bc.GetMaxValidUntilBlockIncrement())
+	tx.Signers = append(tx.Signers, transaction.Signer{Account: hash.Hash160(vscript), Scopes: transaction.None})
+	// fee: size (two witnesses) at the current price plus a generous allowance for both verifications, still the lowest
+	// fee per byte of the batch it is sent with
+	tx.Scripts = []transaction.Witness{{InvocationScript: make([]byte, 66), VerificationScript: a.Script()}, {InvocationScript: make([]byte, 66), VerificationScript: vscript}}
+	tx.NetworkFee = int64(nio.GetVarSize(tx))*bc.FeePerByte() + 2*bc.GetBaseExecFee()*(1<<15) + 2_000_000
+	tx.Scripts = nil
+	if err := a.SignTx(bc.GetConfig().Magic, tx); err != nil {
+		sim.Harnessf("sign: %v", err)
+	}
+	sig := co.SignHashable(uint32(bc.GetConfig().Magic), tx)
+	tx.Scripts = append(tx.Scripts, transaction.Witness{InvocationScript: append([]byte{byte(opcode.PUSHDATA1), keys.SignatureLen}, sig...), VerificationScript: vscript})
+	r.out.Probes["stateful_witness_tx_sent"]++
+	r.log.Addf("t=%dms client tx with a witness valid below height %d -> targets %05b", s.now()/time.Millisecond, k, t.Targets)
+	s.sendToTargets(tx, t.Targets)
+	h := tx.Hash()
+	s.at(s.now()+time.Duration(s.np.MaxDelayMS+60)*time.Millisecond, func() {
+		for i := 0; i < s.np.Validators; i++ {
+			if s.nodes[i].n.BC.GetMemPool().ContainsKey(h) {
+				r.out.Probes["stateful_witness_tx_pooled"]++
+				return
+			}
+		}
+		r.out.Probes["stateful_witness_tx_not_pooled"]++
+	})
 }
